@@ -1041,6 +1041,18 @@ class MasterSim(object):
         self.tick()
         masterapi.cell_remove_bucket(self.admin, inside[pod_idx % len(inside)])
 
+    def op_rmbucket(self, rack_idx):
+        """An admin deletes the definition of a rack that may still hold
+        servers (masterapi.delete_bucket: no event, the running master keeps
+        its in-memory bucket; a new master cannot load the rack's servers,
+        which stay listed under /servers)."""
+        rack = self.racks[rack_idx % len(self.racks)]
+        if not self.admin.exists(z.path.bucket(rack)):
+            return
+        self.tick()
+        masterapi.delete_bucket(self.admin, rack)
+        self.count('rack_definitions_deleted')
+
     def op_running(self, idx):
         name = self._pick_app(idx)
         if name is None:
